@@ -30,6 +30,34 @@ def gen_macros(ck):
     return info, None
 
 
+_built = set()
+
+
+def driver(ck, lines, name='Time'):
+    """ck.driver, but the (lock-protected) `lake build` of the driver's imports happens once per process: later calls
+    only run `lake env lean --run` (the model's .olean files are not touched by anybody else)."""
+    if not lines:
+        return []
+    if name not in _built:
+        out = ck.driver(name, lines)
+        _built.add(name)
+        return out
+    rc, out = vlib.sh(['lake', 'env', 'lean', '--run', os.path.join('Drivers', name + '.lean')], cwd=vlib.LEAN, timeout=3000,
+                      input='\n'.join(lines) + '\n')
+    res = out.split('\n')
+    if res and res[-1] == '': res.pop()
+    if rc != 0 or len(res) != len(lines):
+        raise vlib.DriverError('driver failed rc=%s, %d answers for %d requests: %s' % (rc, len(res), len(lines), out[-1500:]))
+    return res
+
+
+class DriverProxy:
+    """Stands in for a Check where only .driver / .count are used (time_e2e)."""
+    def __init__(self, ck): self.ck = ck
+    def driver(self, name, lines): return driver(self.ck, lines, name)
+    def count(self, *a, **k): return self.ck.count(*a, **k)
+
+
 def connect():
     """DuckDB connection with the SQL macros installed the way the engine installs them."""
     import eng  # noqa: F401  (boots the real vtlengine from vlib.REPO)
